@@ -32,7 +32,17 @@ Definition dk_write (d : disk) (off : Z) (bs : list byte) : disk :=
 
 Definition dk_read (d : disk) (off n : Z) : list byte := map (dk_get d) (zrange off n).
 
-(* ---------- nonblocking requests ---------- *)
+(* write the element stream [bs] (xsz bytes per element) at the element offsets [offs] *)
+Fixpoint dk_scatter (d : disk) (xsz : Z) (offs : list Z) (bs : list byte) : disk :=
+  match offs with
+  | [] => d
+  | o :: r => dk_scatter (dk_write d o (zfirstn xsz bs)) xsz r (zskipn xsz bs)
+  end.
+
+Definition dk_gather (d : disk) (xsz : Z) (offs : list Z) : list byte :=
+  flat_map (fun o => dk_read d o xsz) offs.
+
+(* ---------- requests ---------- *)
 Inductive bufspec :=
 | BTyped                       (* typed API: contiguous, count ignored *)
 | BContig (bufcount : Z)       (* flexible, predefined type x bufcount *)
@@ -50,13 +60,12 @@ Inductive form :=
 Record access := mkacc { ac_var : Z; ac_form : form; ac_memt : Z; ac_flex : bool;
                          ac_buf : bufspec; ac_seed : Z }.
 
-(* a pending request as the model keeps it: everything needed to perform it later *)
 Record preq := mkpreq { pr_id : Z; pr_isput : bool; pr_isbput : bool; pr_slot : Z;
                         pr_acc : access;
                         pr_stream : list byte;   (* put: external bytes captured at post *)
                         pr_bytes : Z }.          (* bput: bytes charged to the attached buffer *)
 
-Record slotst := mkslot { sl_id : Z; sl_isput : bool; sl_acc : access;
+Record slotst := mkslot { sl_id : Z; sl_isput : bool;
                           sl_buf : list byte;    (* current content incl. guards *)
                           sl_last : list byte }. (* content at previous dump *)
 
@@ -65,7 +74,7 @@ Record rankst := mkrank { rk_numrecs : Z; rk_dirty : bool;
                           rk_abuf : option (Z * Z);      (* size, used *)
                           rk_slots : list (Z * slotst) }.
 
-Definition rank0 := mkrank 0 false [] 0 0 None [].
+Definition rank_init (numrecs : Z) := mkrank numrecs false [] 0 0 None [].
 
 Record filest := mkfile {
   f_hdr : hdr; f_lay : layout;
@@ -83,24 +92,1094 @@ Record world := mkworld {
   w_files : list (option filest);     (* index = ncid *)
   w_ids : list Z;                     (* script slot -> ncid last stored *)
   w_hints : aligncfg;
-  w_strict : bool }.
+  w_strict : bool;
+  w_move_unit : Z }.
 
 Definition no_align := mkalign 0 0 0.
 Definition world0 (n : Z) : world :=
-  mkworld n (repeat empty_disk 8) [] (repeat (-1) 8) no_align false.
+  mkworld n (repeat empty_disk 8) [] (repeat (-1) 8) no_align false MOVE_UNIT.
 
-(* ---------- generic helpers ---------- *)
-Definition get_file (w : world) (slot : Z) : option (Z * filest) :=
+(* ---------- small helpers ---------- *)
+Definition set_disk (w : world) (slot : Z) (d : disk) : world :=
+  mkworld (w_nprocs w) (zupd (w_disks w) slot d) (w_files w) (w_ids w) (w_hints w) (w_strict w) (w_move_unit w).
+Definition get_disk (w : world) (slot : Z) : disk := znth (w_disks w) slot empty_disk.
+Definition set_files (w : world) (fs : list (option filest)) : world :=
+  mkworld (w_nprocs w) (w_disks w) fs (w_ids w) (w_hints w) (w_strict w) (w_move_unit w).
+Definition set_ids (w : world) (ids : list Z) : world :=
+  mkworld (w_nprocs w) (w_disks w) (w_files w) ids (w_hints w) (w_strict w) (w_move_unit w).
+Definition set_hints (w : world) (h : aligncfg) : world :=
+  mkworld (w_nprocs w) (w_disks w) (w_files w) (w_ids w) h (w_strict w) (w_move_unit w).
+
+Definition put_file (w : world) (id : Z) (f : option filest) : world :=
+  set_files w (zupd (w_files w) id f).
+
+Definition lookup_file (w : world) (slot : Z) : option (Z * filest) :=
   let id := znth (w_ids w) slot (-1) in
-  if (id <? 0) then None else
-  match znth (w_files w) id None with
-  | Some f => Some (id, f)
-  | None => None
+  if id <? 0 then None
+  else match znth (w_files w) id None with
+       | Some f => Some (id, f)
+       | None => None
+       end.
+
+Definition upd_hdr (f : filest) (h : hdr) : filest :=
+  mkfile h (f_lay f) (f_indef f) (f_indep f) (f_rdonly f) (f_isnew f) (f_old f) (f_fill f)
+         (f_align f) (f_ranks f) (f_slot f) (f_tainted f).
+Definition upd_ranks (f : filest) (r : list rankst) : filest :=
+  mkfile (f_hdr f) (f_lay f) (f_indef f) (f_indep f) (f_rdonly f) (f_isnew f) (f_old f) (f_fill f)
+         (f_align f) r (f_slot f) (f_tainted f).
+Definition upd_rank (f : filest) (rank : Z) (r : rankst) : filest :=
+  upd_ranks f (zupd (f_ranks f) rank r).
+Definition get_rank (f : filest) (rank : Z) : rankst := znth (f_ranks f) rank (rank_init 0).
+Definition taint (f : filest) : filest :=
+  mkfile (f_hdr f) (f_lay f) (f_indef f) (f_indep f) (f_rdonly f) (f_isnew f) (f_old f) (f_fill f)
+         (f_align f) (f_ranks f) (f_slot f) true.
+
+Definition rk_set_numrecs (r : rankst) (n : Z) (dirty : bool) : rankst :=
+  mkrank n dirty (rk_reqs r) (rk_nput r) (rk_nget r) (rk_abuf r) (rk_slots r).
+
+Definition all_ranks (w : world) : list Z := zrange 0 (w_nprocs w).
+
+(* result of one script step: for each executing rank (rank, rc, extra tokens) *)
+Definition obs := (Z * Z * list tok)%type.
+Definition same_all (w : world) (rc : Z) (ex : list tok) : list obs :=
+  map (fun r => (r, rc, ex)) (all_ranks w).
+
+Definition name_eqb := bytes_eqb.
+Definition find_dim (h : hdr) (nm : list byte) : option Z :=
+  find_index (fun d => name_eqb (d_name d) nm) (h_dims h) 0.
+Definition find_var (h : hdr) (nm : list byte) : option Z :=
+  find_index (fun v => name_eqb (v_name v) nm) (h_vars h) 0.
+Definition find_att (l : list att) (nm : list byte) : option Z :=
+  find_index (fun a => name_eqb (a_name a) nm) l 0.
+Definition unlim_dimid (h : hdr) : Z :=
+  match find_index (fun d => d_size d =? 0) (h_dims h) 0 with Some i => i | None => -1 end.
+Definition num_rec_vars (h : hdr) : Z :=
+  Zlen (filter (is_recvar (h_dims h)) (h_vars h)).
+
+Definition geom_of (f : filest) (v : var) : geom :=
+  mkgeom (v_begin v) (xlen_type (v_type v)) (var_shape (h_dims (f_hdr f)) v)
+         (l_recsize (f_lay f)) (num_rec_vars (f_hdr f)).
+
+(* ---------- create / open / close ---------- *)
+Fixpoint first_free (l : list (option filest)) (i : Z) : Z :=
+  match l with
+  | [] => i
+  | None :: _ => i
+  | Some _ :: r => first_free r (i + 1)
   end.
 
-Fixpoint set_nth {A} (l : list A) (i : Z) (v d : A) : list A :=
-  match l with
-  | [] => if i <=? 0 then [v] else d :: set_nth [] (i - 1) v d
-  | x :: r => if i =? 0 then v :: r else x :: set_nth r (i - 1) v d
+Definition empty_layout := mklayout 0 0 0 0 [].
+
+Definition do_create (w : world) (slot fmt clobber : Z) : world * list obs :=
+  let d := get_disk w slot in
+  if dk_exists d && (clobber =? 0) then
+    (set_hints (set_ids w (zupd (w_ids w) slot (-1))) no_align, same_all w NC_EEXIST [TSkip])
+  else
+    let id := first_free (w_files w) 0 in
+    let f := mkfile (mkhdr fmt 0 [] [] []) empty_layout true false false true None false
+                    (w_hints w) (map (fun _ => rank_init 0) (all_ranks w)) slot false in
+    let files := if id <? Zlen (w_files w) then zupd (w_files w) id (Some f)
+                 else w_files w ++ [Some f] in
+    let w1 := set_disk w slot (mkdisk true 0 (fun _ => 0)) in
+    let w2 := set_hints (set_ids (set_files w1 files) (zupd (w_ids w) slot id)) no_align in
+    (w2, same_all w NC_NOERR [TZ id]).
+
+(* ---------- metadata in define mode ---------- *)
+Definition name_err (nm : list byte) : Z :=
+  match nm with
+  | [] => NC_EBADNAME
+  | _ => if Zlen nm >? NC_MAX_NAME then NC_EMAXNAME else NC_NOERR
   end.
-(* set_nth on [] with large i must terminate: structural on nothing -> use fuel version *)
+
+(* names the model is willing to judge: ASCII letters, digits, underscore; first not a digit *)
+Definition simple_char (c : Z) : bool :=
+  ((65 <=? c) && (c <=? 90)) || ((97 <=? c) && (c <=? 122)) || ((48 <=? c) && (c <=? 57)) || (c =? 95).
+Definition simple_name (nm : list byte) : bool :=
+  match nm with
+  | [] => true
+  | c :: _ => forallb simple_char nm && negb ((48 <=? c) && (c <=? 57))
+  end.
+
+Definition do_def_dim (f : filest) (nm : list byte) (len : Z) : option (filest * Z * list tok) :=
+  if negb (simple_name nm) then None else
+  let h := f_hdr f in
+  let fmt := h_format h in
+  if negb (f_indef f) then Some (f, NC_ENOTINDEFINE, [TSkip])
+  else if negb (name_err nm =? NC_NOERR) then Some (f, name_err nm, [TSkip])
+  else if (len <? 0) || ((fmt <? 5) && (len >? NC_MAX_INT)) then Some (f, NC_EDIMSIZE, [TSkip])
+  else if (len =? 0) && negb (unlim_dimid h =? -1) then Some (f, NC_EUNLIMIT, [TSkip])
+  else match find_dim h nm with
+       | Some _ => Some (f, NC_ENAMEINUSE, [TSkip])
+       | None =>
+           let h' := mkhdr fmt (h_numrecs h) (h_dims h ++ [mkdim nm len]) (h_gatts h) (h_vars h) in
+           Some (upd_hdr f h', NC_NOERR, [TZ (Zlen (h_dims h))])
+       end.
+
+Definition do_def_var (f : filest) (nm : list byte) (t : Z) (dimids : list Z)
+  : option (filest * Z * list tok) :=
+  if negb (simple_name nm) then None else
+  let h := f_hdr f in
+  let fmt := h_format h in
+  if negb (f_indef f) then Some (f, NC_ENOTINDEFINE, [TSkip])
+  else if negb (name_err nm =? NC_NOERR) then Some (f, name_err nm, [TSkip])
+  else if negb ((1 <=? t) && (t <=? 11)) then Some (f, NC_EBADTYPE, [TSkip])
+  else if (fmt <? 5) && (t >? 6) then Some (f, NC_ESTRICTCDF2, [TSkip])
+  else if existsb (fun d => (d <? 0) || (d >=? Zlen (h_dims h))) dimids then Some (f, NC_EBADDIM, [TSkip])
+  else if existsb (fun d => dim_size (h_dims h) d =? 0) (tl dimids) then Some (f, NC_EUNLIMPOS, [TSkip])
+  else match find_var h nm with
+       | Some _ => Some (f, NC_ENAMEINUSE, [TSkip])
+       | None =>
+           let v := mkvar nm dimids [] t 0 (negb (f_fill f)) in
+           let h' := mkhdr fmt (h_numrecs h) (h_dims h) (h_gatts h) (h_vars h ++ [v]) in
+           Some (upd_hdr f h', NC_NOERR, [TZ (Zlen (h_vars h))])
+       end.
+
+(* attribute value bytes from script integers *)
+Definition att_bytes (t : Z) (vals : list Z) : option (list byte) :=
+  if t =? 2 then Some (map (fun v => v mod 256) vals)
+  else if is_float_type t then
+    if forallb (fun v => Z.abs v <? 16777216) vals then Some (flat_map (enc_value t) vals) else None
+  else if forallb (fun v => (type_min t <=? v) && (v <=? type_max t)) vals
+       then Some (flat_map (enc_value t) vals) else None.
+
+Definition set_att_list (l : list att) (a : att) : list att :=
+  match find_att l (a_name a) with
+  | Some i => zupd l i a
+  | None => l ++ [a]
+  end.
+
+Definition upd_var_atts (h : hdr) (varid : Z) (g : list att -> list att) : hdr :=
+  if varid =? -1 then mkhdr (h_format h) (h_numrecs h) (h_dims h) (g (h_gatts h)) (h_vars h)
+  else mkhdr (h_format h) (h_numrecs h) (h_dims h) (h_gatts h)
+             (map (fun p => let v := snd p in
+                            if fst p =? varid
+                            then mkvar (v_name v) (v_dimids v) (g (v_atts v)) (v_type v) (v_begin v) (v_nofill v)
+                            else v)
+                  (zip (zrange 0 (Zlen (h_vars h))) (h_vars h))).
+
+Definition atts_of (h : hdr) (varid : Z) : option (list att) :=
+  if varid =? -1 then Some (h_gatts h)
+  else if (0 <=? varid) && (varid <? Zlen (h_vars h))
+       then Some (v_atts (znth (h_vars h) varid (mkvar [] [] [] 0 0 true)))
+       else None.
+
+Definition fillvalue_name : list byte := [95; 70; 105; 108; 108; 86; 97; 108; 117; 101].
+
+(* ---------- header write, numrecs write ---------- *)
+Definition write_header (d : disk) (h : hdr) : disk := dk_write d 0 (encode_header h).
+
+Definition write_numrecs_bytes (d : disk) (fmt n : Z) : disk := dk_write d 4 (put_nn fmt n).
+
+(* ---------- data movement at enddef (move_file_block and friends) ---------- *)
+(* one round: list over ranks of (from_off, to_off, count) *)
+Definition move_round (nprocs chunk from to nbytes_left : Z) : Z * list (Z * Z * Z) :=
+  (* returns (new nbytes_left, per-rank transfers) following the loop body *)
+  if nbytes_left <? nprocs * chunk then
+    let rem := nbytes_left / chunk in
+    (0, map (fun r => let cnt := if r >? rem then 0 else if r =? rem then nbytes_left mod chunk else chunk in
+                      (from + 0 + r * chunk, to + 0 + r * chunk, cnt)) (zrange 0 nprocs))
+  else
+    let nb := nbytes_left - chunk * nprocs in
+    (nb, map (fun r => (from + nb + r * chunk, to + nb + r * chunk, chunk)) (zrange 0 nprocs)).
+
+Fixpoint move_rounds (fuel : nat) (d : disk) (nprocs chunk from to nbytes : Z) : disk :=
+  match fuel with
+  | O => d
+  | S k =>
+      if nbytes <=? 0 then d
+      else
+        let '(nb, xs) := move_round nprocs chunk from to nbytes in
+        (* all reads of the round happen before its writes *)
+        let data := map (fun x => let '(fo, to_, c) := x in (to_, dk_read d fo c)) xs in
+        let d' := fold_left (fun acc p => dk_write acc (fst p) (snd p)) data d in
+        move_rounds k d' nprocs chunk from to nb
+  end.
+
+Definition move_file_block (d : disk) (nprocs unit_ to from nbytes : Z) : disk :=
+  if nbytes <=? 0 then d else
+  let c0 := nbytes / nprocs + (if nbytes mod nprocs =? 0 then 0 else 1) in
+  let chunk := if c0 >? unit_ then unit_ else c0 in
+  move_rounds (Z.to_nat (nbytes / (chunk * nprocs) + 2)) d nprocs chunk from to nbytes.
+
+Definition move_record_vars (d : disk) (nprocs unit_ : Z) (numrecs : Z) (nl ol : layout) : disk :=
+  if l_recsize nl =? l_recsize ol then
+    if l_recsize nl =? 0 then d
+    else move_file_block d nprocs unit_ (l_begin_rec nl) (l_begin_rec ol) (l_recsize nl * numrecs)
+  else
+    fold_left (fun acc recno =>
+                 move_file_block acc nprocs unit_
+                                 (l_begin_rec nl + recno * l_recsize nl)
+                                 (l_begin_rec ol + recno * l_recsize ol) (l_recsize ol))
+              (rev (zrange 0 numrecs)) d.
+
+Definition move_fixed_vars (d : disk) (nprocs unit_ : Z) (oh : hdr) (nl ol : layout) (newlens : list Z) : disk :=
+  fold_left (fun acc i =>
+               let ov := znth (h_vars oh) i (mkvar [] [] [] 0 0 true) in
+               if is_recvar (h_dims oh) ov then acc
+               else
+                 let from := znth (l_begins ol) i 0 in
+                 let to := znth (l_begins nl) i 0 in
+                 if to >? from then move_file_block acc nprocs unit_ to from (znth newlens i 0) else acc)
+            (rev (zrange 0 (Zlen (h_vars oh)))) d.
+
+(* ---------- fill (fillerup_aggregate) ---------- *)
+Definition var_fill_bytes (v : var) : list byte :=
+  match find_att (v_atts v) fillvalue_name with
+  | Some i => let a := znth (v_atts v) i (mkatt [] 0 0 []) in a_data a
+  | None => fill_bytes (v_type v)
+  end.
+
+(* per-rank share (start element, count) of var_len elements *)
+Definition fill_share (nprocs rank var_len : Z) : Z * Z :=
+  let c := var_len / nprocs in
+  let st := c * rank in
+  if rank <? var_len mod nprocs then (st + rank, c + 1) else (st + var_len mod nprocs, c).
+
+(* the segments (byte offset, element count, variable) rank writes *)
+Definition fill_plan (h : hdr) (lay : layout) (start_vid nrecs nprocs rank : Z) : list (Z * Z * var) :=
+  let dims := h_dims h in
+  let newvars := zskipn start_vid (h_vars h) in
+  let fillable := filter (fun v => negb (v_nofill v)) newvars in
+  let fixed := flat_map (fun v =>
+      if is_recvar dims v then []
+      else let vl := var_nelems_per_rec (var_shape dims v) in
+           let '(st, c) := fill_share nprocs rank vl in
+           [(v_begin v + st * xlen_type (v_type v), c, v)]) fillable in
+  let recs := flat_map (fun recno =>
+      flat_map (fun v =>
+        if negb (is_recvar dims v) then []
+        else let vl := var_nelems_per_rec (var_shape dims v) in
+             let '(st, c) := fill_share nprocs rank vl in
+             [(v_begin v + l_recsize lay * recno + st * xlen_type (v_type v), c, v)]) fillable)
+      (zrange 0 nrecs) in
+  fixed ++ recs.
+
+Definition repeat_bytes (bs : list byte) (n : Z) : list byte :=
+  flat_map (fun _ => bs) (zrange 0 n).
+
+Definition do_fill (d : disk) (h : hdr) (lay : layout) (start_vid nrecs nprocs : Z) : disk :=
+  fold_left (fun acc rank =>
+     fold_left (fun acc2 seg => let '(off, c, v) := seg in
+                                dk_write acc2 off (repeat_bytes (var_fill_bytes v) c))
+               (fill_plan h lay start_vid nrecs nprocs rank) acc)
+     (zrange 0 nprocs) d.
+
+(* _FillValue attribute of a fill-mode variable must have the variable's type and length 1 *)
+Definition fill_att_ok (v : var) : bool :=
+  match find_att (v_atts v) fillvalue_name with
+  | Some i => let a := znth (v_atts v) i (mkatt [] 0 0 []) in
+              (a_type a =? v_type v) && (a_nelems a =? 1)
+  | None => true
+  end.
+
+(* ---------- enddef ---------- *)
+Definition sync_ranks_numrecs (f : filest) (n : Z) : filest :=
+  upd_ranks f (map (fun r => rk_set_numrecs r n false) (f_ranks f)).
+
+Definition do_enddef (w : world) (id : Z) (f : filest) (ea : enddef_args)
+  : option (world * Z) :=
+  let h := f_hdr f in
+  if negb (f_indef f) then Some (w, NC_ENOTINDEFINE)
+  else if (e_h_minfree ea <? 0) || (e_v_align ea <? 0) || (e_v_minfree ea <? 0) || (e_r_align ea <? 0)
+  then Some (w, NC_EINVAL)
+  else
+    let e := check_vlens h in
+    if negb (e =? NC_NOERR) then Some (w, e)
+    else
+      let nfix := Zlen (h_vars h) - num_rec_vars h in
+      let is_new := match f_old f with None => true | Some _ => false end in
+      let '(ha, _, ra) := resolve_align (f_align f) ea nfix is_new in
+      let oldinfo := match f_old f with
+                     | Some (oh, ol) => Some (ol, map (is_recvar (h_dims oh)) (h_vars oh))
+                     | None => None end in
+      match begins h (e_h_minfree ea) (e_v_minfree ea) ha ra oldinfo (l_begin_rec (f_lay f)) with
+      | None => Some (w, NC_EVARSIZE)
+      | Some lay =>
+          let numrecs := if f_isnew f then 0 else h_numrecs h in
+          let h1 := set_numrecs (set_begins h (l_begins lay)) numrecs in
+          let d0 := get_disk w (f_slot f) in
+          let np := w_nprocs w in
+          let d1 :=
+            match f_old f with
+            | Some (oh, ol) =>
+                match h_vars h with
+                | [] => d0
+                | _ =>
+                  let lens := map (var_len (h_dims h)) (h_vars h) in
+                  if l_begin_var lay >? l_begin_var ol then
+                    move_fixed_vars (move_record_vars d0 np (w_move_unit w) numrecs lay ol)
+                                    np (w_move_unit w) oh lay ol lens
+                  else if (l_begin_rec lay >? l_begin_rec ol) || (l_recsize lay >? l_recsize ol) then
+                    move_record_vars d0 np (w_move_unit w) numrecs lay ol
+                  else d0
+                end
+            | None => d0
+            end in
+          let d2 := write_header d1 h1 in
+          let start_vid := match f_old f with Some (oh, _) => Zlen (h_vars oh) | None => 0 end in
+          let nrecs_fill := match f_old f with Some (oh, _) => h_numrecs oh | None => 0 end in
+          let newvars := zskipn start_vid (h_vars h1) in
+          if negb (forallb (fun v => v_nofill v || fill_att_ok v) newvars) then None
+          else
+          let d3 := match h_vars h1 with
+                    | [] => d2
+                    | _ => do_fill d2 h1 lay start_vid nrecs_fill np
+                    end in
+          let f' := mkfile h1 lay false false (f_rdonly f) false None (f_fill f) (f_align f)
+                           (f_ranks f) (f_slot f) (f_tainted f) in
+          let f'' := sync_ranks_numrecs f' numrecs in
+          Some (put_file (set_disk w (f_slot f) d3) id (Some f''), NC_NOERR)
+      end.
+
+(* ---------- open: decode the header from disk (the reader proper is modelled in
+   Reader.v; here we use the schema the model itself wrote, re-derived by the spec
+   decoder in the OCaml driver being unnecessary: the model keeps headers of closed
+   files per slot) ---------- *)
+
+(* ---------- data access ---------- *)
+Definition GUARD : Z := 16.
+Definition guard_bytes : list byte := repeat 165 16.
+
+(* C element size of memory type k *)
+Definition mem_size (k : Z) : Z := xlen_type k.
+
+(* resolved request: start/count/stride lists *)
+Record rreq := mkrreq { rq_start : list Z; rq_count : list Z; rq_stride : option (list Z);
+                        rq_imap : option (list Z) }.
+
+Definition nelems_of (r : rreq) : Z := zprod (rq_count r).
+
+(* positions (element index in the dense lbuf) of the request's elements, row-major *)
+Definition lbuf_positions (r : rreq) : list Z :=
+  match imap_positions (rq_count r) (rq_imap r) with
+  | Some p => p
+  | None => zrange 0 (nelems_of r)
+  end.
+
+(* user-buffer element index of the k-th element of the packed stream lbuf *)
+Definition buf_index (b : bufspec) (k : Z) : Z :=
+  match b with
+  | BVector c bl s => (k / bl) * s + k mod bl
+  | _ => k
+  end.
+
+(* number of elements described by the buffer (bnelems) ; None = taken from the request *)
+Definition buf_nelems (b : bufspec) : option Z :=
+  match b with
+  | BContig n => Some n
+  | BVector c bl s => Some (c * bl)
+  | _ => None
+  end.
+
+(* extent in elements of the user buffer *)
+Definition buf_extent_elems (b : bufspec) (r : rreq) : Z :=
+  match b with
+  | BContig n => Z.max n 0
+  | BVector c bl s => if (c <=? 0) || (bl <=? 0) then 0 else (c - 1) * s + bl
+  | _ =>
+      match rq_imap r with
+      | Some im =>
+          if forallb (fun c => c >? 0) (rq_count r) && forallb (fun m => m >=? 0) im
+          then 1 + zsum (map (fun p => (fst p - 1) * snd p) (zip (rq_count r) im))
+          else Z.max 1 (nelems_of r)
+      | None => Z.max 1 (nelems_of r)
+      end
+  end.
+
+(* memory type actually used *)
+Definition eff_memt (a : access) (xt : Z) : Z :=
+  match ac_buf a with BNull => xt | _ => ac_memt a end.
+
+Definition sanity (f : filest) (isput : bool) (blocking : bool) (coll : bool) (a : access) : Z :=
+  let h := f_hdr f in
+  if isput && f_rdonly f then NC_EPERM
+  else if blocking && f_indef f then NC_EINDEFINE
+  else if blocking && coll && f_indep f then NC_EINDEP
+  else if blocking && negb coll && negb (f_indep f) then NC_ENOTINDEP
+  else if ac_var a =? -1 then NC_EGLOBAL
+  else if (ac_var a <? 0) || (ac_var a >=? Zlen (h_vars h)) then NC_ENOTVAR
+  else if ac_flex a then NC_NOERR
+  else
+    let xt := v_type (znth (h_vars h) (ac_var a) (mkvar [] [] [] 0 0 true)) in
+    if ac_memt a =? 2 then (if xt =? 2 then NC_NOERR else NC_ECHAR)
+    else if xt =? 2 then NC_ECHAR else NC_NOERR.
+
+(* resolve a (non-varn) form into start/count/stride/imap; also the api kind and the raw
+   option arguments for the checker *)
+Definition form_args (fm : form) : apikind * option (list Z) * option (list Z) * option (list Z) * option (list Z) :=
+  match fm with
+  | FVar1 s => (API_VAR1, s, None, None, None)
+  | FVara s c => (API_VARA, s, c, None, None)
+  | FVars s c t => ((match t with None => API_VARA | _ => API_VARS end), s, c, t, None)
+  | FVarm s c t m => ((match m, t with
+                       | None, None => API_VARA | None, Some _ => API_VARS | _, _ => API_VARM end), s, c, t, m)
+  | _ => (API_VARA, None, None, None, None)
+  end.
+
+Definition the_var (f : filest) (a : access) : var :=
+  znth (h_vars (f_hdr f)) (ac_var a) (mkvar [] [] [] 0 0 true).
+
+(* argument check of one call; returns err and the list of sub-requests (one, except varn) *)
+Definition check_request (w : world) (f : filest) (rank : Z) (isread : bool) (a : access)
+  : Z * option (list rreq) :=
+  let v := the_var f a in
+  let dims := h_dims (f_hdr f) in
+  let shape := var_shape dims v in
+  let isrec := is_recvar dims v in
+  let numrecs := rk_numrecs (get_rank f rank) in
+  let fmt := h_format (f_hdr f) in
+  match ac_form a with
+  | FVar =>
+      let cnt := if isrec then numrecs :: tl shape else shape in
+      (NC_NOERR, Some [mkrreq (map (fun _ => 0) shape) cnt None None])
+  | FVarn reqs =>
+      match reqs with
+      | [] => (NC_NOERR, Some [])
+      | _ =>
+        match shape with
+        | [] => if Zlen reqs =? 1 then (NC_NOERR, Some [mkrreq [] [] None None]) else (NC_EINVAL, None)
+        | _ =>
+          let e := first_err (map (fun sc => check_scs fmt (w_strict w) isrec isread API_VARA shape numrecs
+                                                       (Some (fst sc)) (Some (snd sc)) None) reqs) in
+          if negb (e =? NC_NOERR) then (e, None)
+          else (NC_NOERR, Some (map (fun sc => mkrreq (fst sc) (snd sc) None None) reqs))
+        end
+      end
+  | fm =>
+      let '(kind, s, c, t, m) := form_args fm in
+      match shape with
+      | [] => (NC_NOERR, Some [mkrreq [] [] None None])
+      | _ =>
+        let e := check_scs fmt (w_strict w) isrec isread kind shape numrecs s c t in
+        if negb (e =? NC_NOERR) then (e, None)
+        else
+          match s with
+          | None => (NC_EINVALCOORDS, None)
+          | Some st =>
+              let cn := match c with Some x => x | None => map (fun _ => 1) shape end in
+              (NC_NOERR, Some [mkrreq st cn t m])
+          end
+      end
+  end.
+
+Definition total_elems (rs : list rreq) : Z := zsum (map nelems_of rs).
+
+(* model of ncmpii_buftype_decode's consistency check *)
+Definition iomismatch (a : access) (rs : list rreq) : bool :=
+  match buf_nelems (ac_buf a) with
+  | Some n => negb (n =? total_elems rs)
+  | None => false
+  end.
+
+(* the external byte stream a put sends, in canonical (row-major) order *)
+Definition put_stream (a : access) (xt : Z) (k0 : Z) (r : rreq) : list byte :=
+  let memt := eff_memt a xt in
+  let lim := pat_lim memt xt in
+  flat_map (fun p => enc_value xt (pat_value (ac_seed a) (k0 + p) lim)) (lbuf_positions r).
+
+(* sub-requests paired with the index of their first element in the user's stream *)
+Fixpoint with_bases (rs : list rreq) (k0 : Z) : list (Z * rreq) :=
+  match rs with
+  | [] => []
+  | r :: t => (k0, r) :: with_bases t (k0 + nelems_of r)
+  end.
+
+(* new_numrecs of a put *)
+Definition put_new_numrecs (r : rreq) : Z :=
+  match rq_stride r with
+  | None => hd 0 (rq_start r) + hd 0 (rq_count r)
+  | Some t => hd 0 (rq_start r) + (hd 0 (rq_count r) - 1) * hd 1 t + 1
+  end.
+
+(* blank user buffer (with guards) of n payload bytes *)
+Definition blank_buf (n : Z) : list byte := guard_bytes ++ repeat 165 (Z.to_nat n) ++ guard_bytes.
+
+Fixpoint poke (buf : list byte) (off : Z) (bs : list byte) : list byte :=
+  match bs with
+  | [] => buf
+  | b :: r => poke (zupd buf off b) (off + 1) r
+  end.
+
+(* result of converting the streams read from the file into the user's buffer image *)
+Definition buf_extent_list (b : bufspec) (rs : list rreq) : Z :=
+  match rs with
+  | [r] => buf_extent_elems b r
+  | _ => match b with
+         | BContig _ | BVector _ _ _ => buf_extent_elems b (mkrreq [] [] None None)
+         | _ => Z.max 1 (total_elems rs)
+         end
+  end.
+
+Definition get_into_buffer (a : access) (xt : Z) (rs : list (Z * rreq * list byte))
+  : option (list byte * bool) :=
+  let memt := eff_memt a xt in
+  let xsz := xlen_type xt in
+  let msz := mem_size memt in
+  let ext := buf_extent_list (ac_buf a) (map (fun x => snd (fst x)) rs) in
+  let buf0 := blank_buf (ext * msz) in
+  fold_left (fun acc0 x =>
+    let '(k0, r, stream) := x in
+    let elems := chunk_list xsz stream in
+    let pos := lbuf_positions r in
+    fold_left (fun acc pe =>
+               match acc with
+               | None => None
+               | Some (buf, er) =>
+                   match convert xt memt (snd pe) with
+                   | None => None
+                   | Some (be, e) =>
+                       Some (poke buf (GUARD + buf_index (ac_buf a) (k0 + fst pe) * msz) (mem_of_be be), er || e)
+                   end
+               end)
+            (zip pos elems) acc0)
+    rs (Some (buf0, false)).
+
+Definition disk_of (w : world) (f : filest) : disk := get_disk w (f_slot f).
+
+(* ----- one rank's part of a blocking put: returns (world', rc, new_numrecs option) ----- *)
+Definition put_rank (w : world) (id : Z) (f : filest) (rank : Z) (coll : bool) (a : access)
+  : world * Z * option Z * bool (* participated with data *) :=
+  let e0 := sanity f true true coll a in
+  if negb (e0 =? NC_NOERR) then (w, e0, None, false)
+  else
+    let v := the_var f a in
+    let xt := v_type v in
+    let '(e1, orq) := check_request w f rank false a in
+    match orq with
+    | None => (w, e1, None, false)
+    | Some rs =>
+        if iomismatch a rs then (w, NC_EIOMISMATCH, None, false)
+        else if total_elems rs =? 0 then (w, NC_NOERR, None, false)
+        else
+          let g := geom_of f v in
+          let d := fold_left (fun dacc kr =>
+                     let r := snd kr in
+                     let offs := model_offsets g (rq_start r) (rq_count r) (rq_stride r) in
+                     dk_scatter dacc (g_xsz g) offs (put_stream a xt (fst kr) r))
+                   (with_bases rs 0) (disk_of w f) in
+          let nn := if g_isrec g
+                    then Some (fold_left Z.max (map put_new_numrecs (filter (fun r => negb (nelems_of r =? 0)) rs)) 0)
+                    else None in
+          (set_disk w (f_slot f) d, NC_NOERR, nn, true)
+    end.
+
+(* after a collective put: numrecs agreement *)
+Definition coll_numrecs_sync (w : world) (id : Z) (f : filest) (news : list (option Z)) : world :=
+  let cur := map rk_numrecs (f_ranks f) in
+  (* each rank proposes max(own numrecs? no: new_numrecs defaults to ncp->numrecs) *)
+  let props := map (fun p => match snd p with Some n => n | None => fst p end) (zip cur news) in
+  let mx := fold_left Z.max props 0 in
+  let root_cur := hd 0 cur in
+  let d := disk_of w f in
+  let d' := if (root_cur <? mx) && (num_rec_vars (f_hdr f) >? 0)
+            then write_numrecs_bytes d (h_format (f_hdr f)) mx else d in
+  let ranks' := map (fun r => if rk_numrecs r <? mx then rk_set_numrecs r mx (rk_dirty r) else r) (f_ranks f) in
+  let h' := set_numrecs (f_hdr f) (Z.max (h_numrecs (f_hdr f)) mx) in
+  put_file (set_disk w (f_slot f) d') id (Some (upd_ranks (upd_hdr f h') ranks')).
+
+Definition indep_numrecs (f : filest) (rank : Z) (nn : option Z) : filest :=
+  match nn with
+  | Some n => let r := get_rank f rank in
+              if rk_numrecs r <? n then upd_rank f rank (rk_set_numrecs r n true) else f
+  | None => f
+  end.
+
+(* ----- blocking get on one rank ----- *)
+Definition get_rank_op (w : world) (f : filest) (rank : Z) (coll : bool) (a : access)
+  : Z * list tok :=
+  let e0 := sanity f false true coll a in
+  if negb (e0 =? NC_NOERR) then (e0, [TSkip])
+  else
+    let v := the_var f a in
+    let xt := v_type v in
+    let '(e1, orq) := check_request w f rank true a in
+    match orq with
+    | None => (e1, [TSkip])
+    | Some rs =>
+        if iomismatch a rs then (NC_EIOMISMATCH, [TSkip])
+        else
+          let g := geom_of f v in
+          let parts := map (fun kr =>
+                 let r := snd kr in
+                 let offs := model_offsets g (rq_start r) (rq_count r) (rq_stride r) in
+                 (fst kr, r, dk_gather (disk_of w f) (g_xsz g) offs)) (with_bases rs 0) in
+          match get_into_buffer a xt parts with
+          | None => (RC_UNMODELLED, [TSkip])
+          | Some (buf, er) => ((if er then NC_ERANGE else NC_NOERR), [THex buf])
+          end
+    end.
+
+(* ================= operations and the step function ================= *)
+From Pnc Require Import HeaderSpec.
+
+Inductive op :=
+| OCreate (f fmt clobber : Z)
+| OOpen (f mode : Z)
+| OClose (f : Z) | OAbort (f : Z) | OEnddef (f : Z)
+| OEnddefX (f a b c d : Z)
+| ORedef (f : Z) | OBeginIndep (f : Z) | OEndIndep (f : Z)
+| OSync (f : Z) | OSyncNumrecs (f : Z) | OFlush (f : Z)
+| ODefDim (f : Z) (nm : list byte) (len : Z)
+| ODefVar (f : Z) (nm : list byte) (t : Z) (dimids : list Z)
+| ORenameDim (f id : Z) (nm : list byte)
+| ORenameVar (f id : Z) (nm : list byte)
+| OPutAtt (f varid : Z) (nm : list byte) (t : Z) (vals : list Z)
+| OGetAtt (f varid : Z) (nm : list byte)
+| ODelAtt (f varid : Z) (nm : list byte)
+| ORenameAtt (f varid : Z) (nm nm2 : list byte)
+| OCopyAtt (f varid : Z) (nm : list byte) (f2 varid2 : Z)
+| OSetFill (f mode : Z)
+| ODefVarFill (f varid nofill hasval val : Z)
+| OInqVarFill (f varid : Z)
+| OFillVarRec (f varid recno : Z)
+| OInq (f : Z)
+| OInqName (f : Z) (kind : Z) (nm : list byte)      (* kind 0 = dim, 1 = var *)
+| OInqAttid (f varid : Z) (nm : list byte)
+| OInqNumrecs (f : Z) | OInqNreqs (f : Z) | OInqBuffer (f : Z)
+| OAttach (f n : Z) | ODetach (f : Z)
+| OSnapshot (f : Z) | OExists (f : Z) | OJunk (f n seed : Z)
+| OPut (f : Z) (coll : bool) (a : access)
+| OGet (f : Z) (coll : bool) (a : access)
+| OIput (f slot : Z) (a : access) | OIget (f slot : Z) (a : access) | OBput (f slot : Z) (a : access)
+| OWait (f : Z) (coll : bool) (n : Z) (slots : list Z)     (* slot -1 = NC_REQ_NULL *)
+| OCancel (f n : Z) (slots : list Z)
+| OBufs (f : Z)
+| OSetId (f n : Z)
+| OHint (key : Z) (v : Z)       (* key 0 h_align, 1 v_align, 2 r_align ; other hints are not layout *)
+| ONoHints
+| OBarrier | OSleep
+| OUnknown.
+
+Inductive step := SAll (o : op) | SEach (os : list op) | SOne (rank : Z) (o : op).
+
+Definition slot_of (o : op) : Z :=
+  match o with
+  | OCreate f _ _ | OOpen f _ | OClose f | OAbort f | OEnddef f | OEnddefX f _ _ _ _
+  | ORedef f | OBeginIndep f | OEndIndep f | OSync f | OSyncNumrecs f | OFlush f
+  | ODefDim f _ _ | ODefVar f _ _ _ | ORenameDim f _ _ | ORenameVar f _ _
+  | OPutAtt f _ _ _ _ | OGetAtt f _ _ | ODelAtt f _ _ | ORenameAtt f _ _ _ | OCopyAtt f _ _ _ _
+  | OSetFill f _ | ODefVarFill f _ _ _ _ | OInqVarFill f _ | OFillVarRec f _ _
+  | OInq f | OInqName f _ _ | OInqAttid f _ _ | OInqNumrecs f | OInqNreqs f | OInqBuffer f
+  | OAttach f _ | ODetach f | OSnapshot f | OExists f | OJunk f _ _
+  | OPut f _ _ | OGet f _ _ | OIput f _ _ | OIget f _ _ | OBput f _ _
+  | OWait f _ _ _ | OCancel f _ _ | OBufs f | OSetId f _ => f
+  | _ => -1
+  end.
+
+Definition unmodelled (w : world) (ranks : list Z) : list obs :=
+  map (fun r => (r, RC_UNMODELLED, [TSkip])) ranks.
+
+(* taint the file of a slot: from now on its observations are not predicted *)
+Definition taint_slot (w : world) (slot : Z) : world :=
+  match lookup_file w slot with
+  | Some (id, f) => put_file w id (Some (taint f))
+  | None => w
+  end.
+
+Definition is_tainted (w : world) (slot : Z) : bool :=
+  match lookup_file w slot with
+  | Some (_, f) => f_tainted f
+  | None => false
+  end.
+
+(* ---------- inquiry dump ---------- *)
+Definition att_toks (a : att) : list tok :=
+  [TName 65 (a_name a); TZ (a_type a); TZ (a_nelems a);
+   THex (flat_map mem_of_be (chunk_list (xlen_type (a_type a)) (a_data a)))].
+
+Definition inq_toks (f : filest) (rank : Z) : list tok :=
+  let h := f_hdr f in
+  let dims := h_dims h in
+  let nr := rk_numrecs (get_rank f rank) in
+  [TZ (Zlen dims); TZ (Zlen (h_vars h)); TZ (Zlen (h_gatts h)); TZ (unlim_dimid h)] ++
+  flat_map (fun d => [TName 68 (d_name d); TZ (if d_size d =? 0 then nr else d_size d)]) dims ++
+  flat_map att_toks (h_gatts h) ++
+  flat_map (fun v => [TName 86 (v_name v); TZ (v_type v); TZ (Zlen (v_dimids v))] ++ map TZ (v_dimids v)
+                     ++ [TZ (Zlen (v_atts v)); (if f_indef f then TSkip else TZ (v_begin v))]
+                     ++ flat_map att_toks (v_atts v)) (h_vars h) ++
+  [TName 72 [];
+   (if f_indef f then TSkip else TZ (l_xsz (f_lay f)));
+   (if f_indef f then TSkip else TZ (l_begin_var (f_lay f)));
+   (if f_indef f then TSkip else TZ (l_recsize (f_lay f)));
+   TZ (if unlim_dimid h =? -1 then -1 else nr);
+   TZ (h_format h)].
+
+(* ---------- open ---------- *)
+Definition do_open (w : world) (slot mode : Z) : option (world * list obs) :=
+  let d := get_disk w slot in
+  if negb (dk_exists d) then
+    Some (set_hints (set_ids w (zupd (w_ids w) slot (-1))) no_align, same_all w NC_ENOENT [TSkip])
+  else
+    match decode (dk_read d 0 (dk_size d)) with
+    | None => None
+    | Some dc =>
+        let h := dc_hdr dc in
+        let lay := layout_of_hdr h (dc_len dc) in
+        let id := first_free (w_files w) 0 in
+        let f := mkfile h lay false false (mode =? 0) false None false (w_hints w)
+                        (map (fun _ => rank_init (h_numrecs h)) (all_ranks w)) slot false in
+        let files := if id <? Zlen (w_files w) then zupd (w_files w) id (Some f)
+                     else w_files w ++ [Some f] in
+        Some (set_hints (set_ids (set_files w files) (zupd (w_ids w) slot id)) no_align,
+              same_all w NC_NOERR [TZ id])
+    end.
+
+(* ---------- leaving independent mode / sync of numrecs ---------- *)
+Definition sync_numrecs_all (w : world) (id : Z) (f : filest) : world :=
+  if num_rec_vars (f_hdr f) =? 0 then put_file w id (Some f) else
+  let mx := fold_left Z.max (map rk_numrecs (f_ranks f)) 0 in
+  let root := get_rank f 0 in
+  let d := disk_of w f in
+  (* root: new > numrecs || NDIRTY ; sync_numrecs sets NDIRTY on every rank first *)
+  let d' := write_numrecs_bytes d (h_format (f_hdr f)) mx in
+  let f' := sync_ranks_numrecs (upd_hdr f (set_numrecs (f_hdr f) mx)) mx in
+  put_file (set_disk w (f_slot f) d') id (Some f').
+
+Definition set_modes (f : filest) (indef indep : bool) : filest :=
+  mkfile (f_hdr f) (f_lay f) indef indep (f_rdonly f) (f_isnew f) (f_old f) (f_fill f)
+         (f_align f) (f_ranks f) (f_slot f) (f_tainted f).
+
+Definition pending_any (f : filest) : bool :=
+  existsb (fun r => match rk_reqs r with [] => false | _ => true end) (f_ranks f).
+
+(* dump of all live slots of a rank *)
+Definition dump_slots (r : rankst) : list tok * rankst :=
+  let toks := map (fun p => let s := snd p in
+                            TBuf (fst p) (if bytes_eqb (sl_buf s) (sl_last s) then None else Some (sl_buf s)))
+                  (rk_slots r) in
+  let slots' := map (fun p => let s := snd p in (fst p, mkslot (sl_id s) (sl_isput s) (sl_buf s) (sl_buf s)))
+                    (rk_slots r) in
+  (toks, mkrank (rk_numrecs r) (rk_dirty r) (rk_reqs r) (rk_nput r) (rk_nget r) (rk_abuf r) slots').
+
+(* ---------- close ---------- *)
+Definition do_close (w : world) (id : Z) (f : filest) : option (world * list obs) :=
+  (* close in define mode performs enddef first *)
+  let r1 := if f_indef f then do_enddef w id f (mkeargs 0 0 0 0) else Some (w, NC_NOERR) in
+  match r1 with
+  | None => None
+  | Some (w1, e1) =>
+      match znth (w_files w1) id None with
+      | None => None
+      | Some f1 =>
+          if negb (e1 =? NC_NOERR) then None (* close after failed enddef: not modelled *)
+          else
+          let w2 := if negb (f_rdonly f1) && f_indep f1 then sync_numrecs_all w1 id f1 else w1 in
+          match znth (w_files w2) id None with
+          | None => None
+          | Some f2 =>
+              let obs := map (fun r =>
+                   let rk := get_rank f2 r in
+                   let pend := match rk_reqs rk with [] => false | _ => true end in
+                   (r, (if pend then NC_EPENDING else NC_NOERR), fst (dump_slots rk)))
+                 (all_ranks w) in
+              (* truncate to header size when no variable is defined *)
+              let d := disk_of w2 f2 in
+              let d' := match h_vars (f_hdr f2) with
+                        | [] => if negb (f_rdonly f2) && (dk_size d >? l_xsz (f_lay f2))
+                                then mkdisk true (l_xsz (f_lay f2))
+                                            (fun x => if x <? l_xsz (f_lay f2) then dk_get d x else 0)
+                                else d
+                        | _ => d end in
+              Some (put_file (set_disk w2 (f_slot f2) d') id None, obs)
+          end
+      end
+  end.
+
+(* ---------- one collective/independent data step ---------- *)
+Definition put_obs (rc : Z) : list tok := [TSame].
+
+(* apply the per-rank puts of a collective call in rank order, then agree on numrecs *)
+Definition coll_put (w : world) (id : Z) (f : filest) (ras : list (Z * access))
+  : world * list obs :=
+  let np := w_nprocs w in
+  let '(w1, res) :=
+      fold_left (fun acc ra =>
+                   let '(wc, out) := acc in
+                   let '(w', rc, nn, part) := put_rank wc id f (fst ra) true (snd ra) in
+                   (w', out ++ [(fst ra, rc, nn)]))
+                ras (w, []) in
+  (* fatal errors (mode errors) return before any collective; in a well-formed script they
+     occur on all ranks alike *)
+  let fatal rc := (rc =? NC_EPERM) || (rc =? NC_EINDEFINE) || (rc =? NC_EINDEP) || (rc =? NC_ENOTINDEP) in
+  if existsb (fun x => fatal (snd (fst x))) res then
+    (w, map (fun x => (fst (fst x), snd (fst x), [TSame])) res)
+  else
+    match znth (w_files w1) id None with
+    | None => (w1, [])
+    | Some f1 =>
+        let v_isrec := fun (ra : Z * access) =>
+              let a := snd ra in
+              if (0 <=? ac_var a) && (ac_var a <? Zlen (h_vars (f_hdr f1)))
+              then is_recvar (h_dims (f_hdr f1)) (the_var f1 a) else false in
+        let w2 := if existsb v_isrec ras
+                  then coll_numrecs_sync w1 id f1 (map (fun x => snd x) res) else w1 in
+        (w2, map (fun x => (fst (fst x), snd (fst x), [TSame])) res)
+    end.
+
+Definition indep_put (w : world) (id : Z) (f : filest) (rank : Z) (a : access) : world * list obs :=
+  let '(w', rc, nn, part) := put_rank w id f rank false a in
+  match znth (w_files w') id None with
+  | None => (w', [(rank, rc, [TSame])])
+  | Some f1 => (put_file w' id (Some (indep_numrecs f1 rank nn)), [(rank, rc, [TSame])])
+  end.
+
+(* does the access use a feature the model does not cover? *)
+Definition acc_unmodelled (a : access) : bool := false.
+
+(* ---------- the step function ---------- *)
+Definition exec_all (w : world) (o : op) : world * list obs :=
+  let ranks := all_ranks w in
+  let slot := slot_of o in
+  let bad := (w, unmodelled w ranks) in
+  let with_file (k : Z -> filest -> world * list obs) : world * list obs :=
+      match lookup_file w slot with
+      | Some (id, f) => if f_tainted f then bad else k id f
+      | None => (w, same_all w NC_EBADID [TSkip])
+      end in
+  let taint_out := (taint_slot w slot, unmodelled w ranks) in
+  match o with
+  | OCreate f fmt clobber => do_create w f fmt clobber
+  | OOpen f mode => match do_open w f mode with Some r => r | None => bad end
+  | OHint k v =>
+      let h := w_hints w in
+      let v' := if v <? 0 then 0 else v in
+      (set_hints w (if k =? 0 then mkalign v' (env_v_align h) (env_r_align h)
+                    else if k =? 1 then mkalign (env_h_align h) v' (env_r_align h)
+                    else if k =? 2 then mkalign (env_h_align h) (env_v_align h) v'
+                    else h), [])
+  | ONoHints => (set_hints w no_align, [])
+  | OSetId f n => (set_ids w (zupd (w_ids w) f n), same_all w 0 [])
+  | OBarrier | OSleep => (w, same_all w 0 [])
+  | OExists f => (w, [(0, (if dk_exists (get_disk w f) then 0 else -1), [])])
+  | OSnapshot f =>
+      let d := get_disk w f in
+      if is_tainted w f then bad else
+      if dk_exists d then
+        (w, map (fun r => if r =? 0 then (r, 0, [TZ (dk_size d); THex (dk_read d 0 (dk_size d))])
+                          else (r, 0, [])) ranks)
+      else (w, same_all w (-1) [])
+  | OJunk f n seed =>
+      (set_disk w f (mkdisk true n (fun x => if (0 <=? x) && (x <? n) then (seed + x * 13) mod 251 + 1 else 0)),
+       same_all w 0 [])
+  | ODefDim _ nm len =>
+      with_file (fun id f => match do_def_dim f nm len with
+                             | Some (f', rc, ex) => (put_file w id (Some f'), same_all w rc ex)
+                             | None => taint_out end)
+  | ODefVar _ nm t dimids =>
+      with_file (fun id f => match do_def_var f nm t dimids with
+                             | Some (f', rc, ex) => (put_file w id (Some f'), same_all w rc ex)
+                             | None => taint_out end)
+  | OPutAtt _ varid nm t vals =>
+      with_file (fun id f =>
+        if negb (simple_name nm) || bytes_eqb nm fillvalue_name then taint_out else
+        if f_rdonly f then (w, same_all w NC_EPERM [])
+        else match atts_of (f_hdr f) varid, att_bytes t vals with
+             | Some l, Some bs =>
+                 if negb (name_err nm =? NC_NOERR) then (w, same_all w (name_err nm) [])
+                 else if negb ((1 <=? t) && (t <=? 11)) then (w, same_all w NC_EBADTYPE [])
+                 else if (h_format (f_hdr f) <? 5) && (t >? 6) then (w, same_all w NC_ESTRICTCDF2 [])
+                 else
+                 let a := mkatt nm t (Zlen vals) bs in
+                 if f_indef f then
+                   (put_file w id (Some (upd_hdr f (upd_var_atts (f_hdr f) varid (fun l => set_att_list l a)))),
+                    same_all w NC_NOERR [])
+                 else taint_out (* data-mode attribute updates: Meta model (C07) *)
+             | None, _ => (w, same_all w NC_ENOTVAR [])
+             | _, None => taint_out
+             end)
+  | OGetAtt _ varid nm =>
+      with_file (fun id f =>
+        match atts_of (f_hdr f) varid with
+        | Some l => match find_att l nm with
+                    | Some i => let a := znth l i (mkatt [] 0 0 []) in
+                                (w, same_all w NC_NOERR
+                                     [TZ (a_type a); TZ (a_nelems a);
+                                      THex (flat_map mem_of_be (chunk_list (xlen_type (a_type a)) (a_data a)))])
+                    | None => (w, same_all w NC_ENOTATT [TSkip; TSkip; TSkip])
+                    end
+        | None => (w, same_all w NC_ENOTVAR [TSkip; TSkip; TSkip])
+        end)
+  | OSetFill _ mode =>
+      with_file (fun id f =>
+        if f_rdonly f then (w, same_all w NC_EPERM [TSkip])
+        else if negb (f_indef f) then (w, same_all w NC_ENOTINDEFINE [TSkip])
+        else
+          let nofill := mode =? 1 in
+          let h := f_hdr f in
+          let h' := mkhdr (h_format h) (h_numrecs h) (h_dims h) (h_gatts h)
+                          (map (fun v => mkvar (v_name v) (v_dimids v) (v_atts v) (v_type v) (v_begin v) nofill) (h_vars h)) in
+          let f' := mkfile h' (f_lay f) (f_indef f) (f_indep f) (f_rdonly f) (f_isnew f) (f_old f)
+                           (negb nofill) (f_align f) (f_ranks f) (f_slot f) (f_tainted f) in
+          (put_file w id (Some f'), same_all w NC_NOERR [TZ (if f_fill f then 0 else 1)]))
+  | ODefVarFill _ varid nofill hasval val =>
+      with_file (fun id f =>
+        if f_rdonly f then (w, same_all w NC_EPERM [])
+        else if negb (f_indef f) then (w, same_all w NC_ENOTINDEFINE [])
+        else if varid =? -1 then (w, same_all w NC_EGLOBAL [])
+        else if (varid <? 0) || (varid >=? Zlen (h_vars (f_hdr f))) then (w, same_all w NC_ENOTVAR [])
+        else
+          let h := f_hdr f in
+          let v := znth (h_vars h) varid (mkvar [] [] [] 0 0 true) in
+          let t := v_type v in
+          let inrange := if is_float_type t then Z.abs val <? 16777216
+                         else (type_min t <=? val) && (val <=? type_max t) in
+          if (hasval =? 1) && negb inrange then taint_out else
+          let atts' := if (hasval =? 1) && (nofill =? 0)
+                       then set_att_list (v_atts v) (mkatt fillvalue_name t 1 (enc_value t val))
+                       else v_atts v in
+          let v' := mkvar (v_name v) (v_dimids v) atts' t (v_begin v) (negb (nofill =? 0)) in
+          let h' := mkhdr (h_format h) (h_numrecs h) (h_dims h) (h_gatts h) (zupd (h_vars h) varid v') in
+          (put_file w id (Some (upd_hdr f h')), same_all w NC_NOERR []))
+  | OInqVarFill _ varid =>
+      with_file (fun id f =>
+        if (varid <? 0) || (varid >=? Zlen (h_vars (f_hdr f))) then (w, same_all w NC_ENOTVAR [TSkip; TSkip])
+        else let v := znth (h_vars (f_hdr f)) varid (mkvar [] [] [] 0 0 true) in
+             (w, same_all w NC_NOERR [TZ (if v_nofill v then 1 else 0); THex (mem_of_be (var_fill_bytes v))]))
+  | OEnddef _ =>
+      with_file (fun id f => match do_enddef w id f (mkeargs 0 0 0 0) with
+                             | Some (w', rc) => (w', same_all w rc [])
+                             | None => taint_out end)
+  | OEnddefX _ a b c d =>
+      with_file (fun id f => match do_enddef w id f (mkeargs a b c d) with
+                             | Some (w', rc) => (w', same_all w rc [])
+                             | None => taint_out end)
+  | ORedef _ =>
+      with_file (fun id f =>
+        if f_rdonly f then (w, same_all w NC_EPERM [])
+        else if f_indef f then (w, same_all w NC_EINDEFINE [])
+        else
+          (* leaving independent mode first syncs numrecs *)
+          let w1 := if f_indep f then sync_numrecs_all w id f else w in
+          match znth (w_files w1) id None with
+          | None => bad
+          | Some f1 =>
+              let f2 := mkfile (f_hdr f1) (f_lay f1) true false false false (Some (f_hdr f1, f_lay f1))
+                               (f_fill f1) (f_align f1) (f_ranks f1) (f_slot f1) (f_tainted f1) in
+              (put_file w1 id (Some f2), same_all w NC_NOERR [])
+          end)
+  | OBeginIndep _ =>
+      with_file (fun id f =>
+        if f_indef f then (w, same_all w NC_EINDEFINE [])
+        else (put_file w id (Some (set_modes f false true)), same_all w NC_NOERR []))
+  | OEndIndep _ =>
+      with_file (fun id f =>
+        if f_indef f then (w, same_all w NC_EINDEFINE [])
+        else if negb (f_indep f) then (w, same_all w NC_ENOTINDEP [])
+        else
+          let w1 := if f_rdonly f then w else sync_numrecs_all w id f in
+          match znth (w_files w1) id None with
+          | None => bad
+          | Some f1 => (put_file w1 id (Some (set_modes f1 false false)), same_all w NC_NOERR [])
+          end)
+  | OSync _ =>
+      with_file (fun id f =>
+        if f_indef f then (w, same_all w NC_EINDEFINE [])
+        else if f_rdonly f then (w, same_all w NC_NOERR [])
+        else ((if f_indep f then sync_numrecs_all w id f else w), same_all w NC_NOERR []))
+  | OSyncNumrecs _ =>
+      with_file (fun id f =>
+        if f_indef f then (w, same_all w NC_EINDEFINE [])
+        else if num_rec_vars (f_hdr f) =? 0 then (w, same_all w NC_NOERR [])
+        else if f_rdonly f then (w, same_all w NC_EPERM [])
+        else ((if f_indep f then sync_numrecs_all w id f else w), same_all w NC_NOERR []))
+  | OClose _ =>
+      with_file (fun id f => match do_close w id f with Some r => r | None => taint_out end)
+  | OInq _ =>
+      with_file (fun id f => (w, map (fun r => (r, NC_NOERR, inq_toks f r)) ranks))
+  | OInqNumrecs _ =>
+      with_file (fun id f =>
+        (w, map (fun r => (r, NC_NOERR,
+                           [TZ (if unlim_dimid (f_hdr f) =? -1 then -1 else rk_numrecs (get_rank f r))])) ranks))
+  | OInqName _ kind nm =>
+      with_file (fun id f =>
+        if kind =? 0 then
+          match find_dim (f_hdr f) nm with
+          | Some i => (w, same_all w NC_NOERR [TZ i]) | None => (w, same_all w NC_EBADDIM [TSkip]) end
+        else
+          match find_var (f_hdr f) nm with
+          | Some i => (w, same_all w NC_NOERR [TZ i]) | None => (w, same_all w NC_ENOTVAR [TSkip]) end)
+  | OInqAttid _ varid nm =>
+      with_file (fun id f =>
+        match atts_of (f_hdr f) varid with
+        | Some l => match find_att l nm with
+                    | Some i => (w, same_all w NC_NOERR [TZ i])
+                    | None => (w, same_all w NC_ENOTATT [TSkip]) end
+        | None => (w, same_all w NC_ENOTVAR [TSkip])
+        end)
+  | OPut _ coll a =>
+      with_file (fun id f =>
+        if acc_unmodelled a then taint_out
+        else if coll then coll_put w id f (map (fun r => (r, a)) ranks)
+        else fold_left (fun acc r =>
+                          let '(wc, out) := acc in
+                          match znth (w_files wc) id None with
+                          | Some fc => let '(w', o') := indep_put wc id fc r a in (w', out ++ o')
+                          | None => acc end) ranks (w, []))
+  | OGet _ coll a =>
+      with_file (fun id f =>
+        if acc_unmodelled a then taint_out
+        else (w, map (fun r => let '(rc, ex) := get_rank_op w f r coll a in (r, rc, ex)) ranks))
+  | _ => taint_out
+  end.
+
+Definition acc_of (o : op) : option (bool * bool * access) :=   (* isput, coll, access *)
+  match o with
+  | OPut _ c a => Some (true, c, a)
+  | OGet _ c a => Some (false, c, a)
+  | _ => None
+  end.
+
+Definition exec_each (w : world) (os : list op) : world * list obs :=
+  let ranks := all_ranks w in
+  match os with
+  | [] => (w, [])
+  | o0 :: _ =>
+      let slot := slot_of o0 in
+      match lookup_file w slot with
+      | None => (w, same_all w NC_EBADID [TSkip])
+      | Some (id, f) =>
+          if f_tainted f then (w, unmodelled w ranks) else
+          let accs := map acc_of os in
+          if forallb (fun x => match x with Some (true, true, a) => negb (acc_unmodelled a) | _ => false end) accs
+          then coll_put w id f (flat_map (fun p => match snd p with Some (_, _, a) => [(fst p, a)] | None => [] end)
+                                         (zip ranks accs))
+          else if forallb (fun x => match x with Some (false, true, a) => negb (acc_unmodelled a) | _ => false end) accs
+          then (w, flat_map (fun p => match snd p with
+                                      | Some (_, _, a) => let '(rc, ex) := get_rank_op w f (fst p) true a in
+                                                          [(fst p, rc, ex)]
+                                      | None => [] end) (zip ranks accs))
+          else (taint_slot w slot, unmodelled w ranks)
+      end
+  end.
+
+Definition exec_one (w : world) (rank : Z) (o : op) : world * list obs :=
+  let slot := slot_of o in
+  match lookup_file w slot with
+  | None => (w, [(rank, NC_EBADID, [TSkip])])
+  | Some (id, f) =>
+      if f_tainted f then (w, [(rank, RC_UNMODELLED, [TSkip])]) else
+      match o with
+      | OPut _ false a =>
+          if acc_unmodelled a then (taint_slot w slot, [(rank, RC_UNMODELLED, [TSkip])])
+          else indep_put w id f rank a
+      | OGet _ false a =>
+          if acc_unmodelled a then (taint_slot w slot, [(rank, RC_UNMODELLED, [TSkip])])
+          else let '(rc, ex) := get_rank_op w f rank false a in (w, [(rank, rc, ex)])
+      | OInqNumrecs _ =>
+          (w, [(rank, NC_NOERR, [TZ (if unlim_dimid (f_hdr f) =? -1 then -1 else rk_numrecs (get_rank f rank))])])
+      | OInq _ => (w, [(rank, NC_NOERR, inq_toks f rank)])
+      | _ => (taint_slot w slot, [(rank, RC_UNMODELLED, [TSkip])])
+      end
+  end.
+
+Definition exec_step (w : world) (s : step) : world * list obs :=
+  match s with
+  | SAll o => exec_all w o
+  | SEach os => exec_each w os
+  | SOne r o => exec_one w r o
+  end.
+
+Definition set_strict (w : world) (b : bool) : world :=
+  mkworld (w_nprocs w) (w_disks w) (w_files w) (w_ids w) (w_hints w) b (w_move_unit w).
+Definition set_move_unit (w : world) (u : Z) : world :=
+  mkworld (w_nprocs w) (w_disks w) (w_files w) (w_ids w) (w_hints w) (w_strict w) u.
